@@ -82,7 +82,7 @@ func c10Gen(tier string, seed int64) []fw.Case {
 	for rep := 0; rep < reps; rep++ {
 		for _, role := range bothRoles {
 			for pi, p := range []wire.Params{{}, {Deflate: true}} {
-				for _, b := range []string{"read", "reader-read", "write", "writer-write", "writer-close", "ping", "read-partial-frame", "reader-read-partial-frame", "read-partial-header", "read-partial-ping", "read-pong-blocked"} {
+				for _, b := range []string{"read", "reader-read", "write", "writer-write", "writer-close", "ping", "read-partial-frame", "reader-read-partial-frame", "read-partial-header", "read-partial-ping", "read-pong-blocked", "read-header-tail-buffered", "reader-read-cont-header-buffered"} {
 					for _, pre := range []string{"none", "ping-interleaved", "concurrent-write-completed", "concurrent-read-completed", "earlier-op-cancelled", "ping-queued-behind", "write-queued-behind", "write-queued-before-blocking"} {
 						if pre == "ping-queued-behind" && b != "write" && b != "writer-write" && b != "writer-close" {
 							continue
@@ -196,6 +196,8 @@ func c10Program(r *fw.R, d c10Desc) {
 		}
 		payload := genPayload(rng, op.Size, rng.Intn(5), nil)
 		var opErr error
+		var staleR io.Reader      // the reader / writer of the finished message, still in the application's hands
+		var staleW io.WriteCloser // (e.g. a deferred Close after an explicit one)
 		t0 := time.Now()
 		switch op.Kind {
 		case "read", "reader":
@@ -206,6 +208,7 @@ func c10Program(r *fw.R, d c10Desc) {
 			} else {
 				var rd io.Reader
 				_, rd, opErr = c.Reader(ctx)
+				staleR = rd
 				if opErr == nil {
 					buf := make([]byte, 1+rng.Intn(3000))
 					for {
@@ -262,6 +265,7 @@ func c10Program(r *fw.R, d c10Desc) {
 			if opErr == nil {
 				opErr = w.Close()
 			}
+			staleW = w
 			nmsgOut++
 			r.Key("program/%s/%s/writer/chunks=%d/%s", d.Role, paramsKey(d.Params), min(len(cuts), 3), op.Cancel)
 		case "ping":
@@ -317,6 +321,24 @@ func c10Program(r *fw.R, d c10Desc) {
 			}
 		case "during-next":
 			pendingCancel = cancel // cancelled while a later operation is in progress or has just returned
+		}
+		if (op.Cancel == "after-return" || op.Cancel == "after-return-delayed") && rng.Bool() {
+			// the message is finished and its context cancelled; the application touches the finished reader /
+			// writer once more (a Read after io.EOF, the deferred Close after an explicit Close, a late Write).
+			// Whatever these calls return, they are calls on a finished message: the connection stays as it is.
+			for k := 1 + rng.Intn(6); k > 0; k-- {
+				switch {
+				case staleR != nil:
+					staleR.Read(make([]byte, 8))
+					r.Count("calls_on_a_finished_message_after_its_context_was_cancelled", 1)
+				case staleW != nil && rng.Bool():
+					staleW.Close()
+					r.Count("calls_on_a_finished_message_after_its_context_was_cancelled", 1)
+				case staleW != nil:
+					staleW.Write([]byte("late"))
+					r.Count("calls_on_a_finished_message_after_its_context_was_cancelled", 1)
+				}
+			}
 		}
 		r.Count("ops_with_context_cancelled_after_return", 1)
 	}
@@ -497,6 +519,40 @@ func c10Blocked(r *fw.R, d c10Desc) {
 		<-peerReads
 		peer.Send(wire.Ping(big[:100]))
 		go func() { _, _, err := c.Read(ctx); res <- err }()
+	case "read-header-tail-buffered", "reader-read-cont-header-buffered":
+		// the first bytes (two or more, never all) of a frame header arrive in the SAME transport read as the
+		// complete frame before it, so they already sit in the connection's read buffer when the call that needs
+		// the rest of the header starts; the rest never arrives
+		first := peer.Mask(wire.Data(wire.OpText, true, []byte("a complete message"))).Bytes()
+		next := peer.Mask(wire.Data(wire.OpBinary, true, big[:300+rng.Intn(70000)])).Bytes()
+		if d.Blocked == "reader-read-cont-header-buffered" {
+			first = peer.Mask(wire.Data(wire.OpBinary, false, []byte("a complete first fragment"))).Bytes()
+			next = peer.Mask(wire.Frame{Fin: true, Op: wire.OpCont, Payload: big[:300+rng.Intn(70000)], LenForm: -1}).Bytes()
+		}
+		hdr := 4
+		if len(next) > 65536+8 {
+			hdr = 10
+		}
+		if d.Role == RoleServer {
+			hdr += 4
+		}
+		k := 2 + rng.Intn(hdr-2)
+		peer.SendBytes(append(append([]byte(nil), first...), next[:k]...))
+		r.Key("blocked/%s/%s/header-bytes-buffered=%d-of-%d", d.Role, d.Blocked, k, hdr)
+		if d.Blocked == "read-header-tail-buffered" {
+			if _, b, err := c.Read(base); err != nil || string(b) != "a complete message" {
+				setupFailed(fmt.Sprintf("reading the complete message: %q %v", b, err))
+				return
+			}
+			go func() { _, _, err := c.Read(ctx); res <- err }()
+		} else {
+			_, rd, err := c.Reader(ctx)
+			if err != nil {
+				setupFailed(err.Error())
+				return
+			}
+			go func() { _, err := io.ReadAll(rd); res <- err }()
+		}
 	case "read-partial-frame", "reader-read-partial-frame", "read-partial-header":
 		// header and the first payload bytes arrive in ONE transport read, the rest never does
 		f := peer.Mask(wire.Data(wire.OpBinary, true, big[:100])).Bytes()
@@ -711,7 +767,7 @@ func c10Blocked(r *fw.R, d c10Desc) {
 	select {
 	case callErr = <-res:
 	case <-time.After(30 * time.Second):
-		if over := time.Duration(canaryMax.Load()); over > c09CanaryLimit {
+		if over := time.Duration(canaryMax.Load()); over > 5*time.Second { // (30 s of waiting: only seconds of oversleep matter)
 			r.Inconclusivef("%s: blocked call not released, canary overslept %v", what, over)
 			return
 		}
@@ -729,7 +785,7 @@ func c10Blocked(r *fw.R, d c10Desc) {
 		return
 	}
 	if lag > 2*time.Second {
-		if over := time.Duration(canaryMax.Load()); over > c09CanaryLimit {
+		if over := time.Duration(canaryMax.Load()); over > c09CanaryLimit && 3*over > lag-2*time.Second {
 			r.Inconclusivef("%s: returned after %v, canary overslept %v", what, lag, over)
 		} else {
 			r.Violate("C10/blocked-call-returned-late/"+d.Blocked+"/"+d.Pre, fmt.Sprintf("%s: the call returned %v after its context ended", what, lag.Round(time.Millisecond)), "")
